@@ -441,7 +441,8 @@ def diagform_case(draw):
     shape = draw(gen.shapes(max_rank=2))
     forms = [draw(form_spec(n=n)) for _ in range(gen.prod(shape))]
     return dict(n=n, shape=shape, forms=forms,
-                order=draw(st.sampled_from(["signed", "minkowski", "minkowski", "default"])),
+                order=draw(st.sampled_from(["signed", "minkowski", "minkowski", "default",
+                                            "none"])),
                 reverse=draw(st.booleans()), with_inverse=draw(st.sampled_from([True, True,
                                                                                 False])))
 
@@ -470,7 +471,9 @@ def body_diagform(case, ctx):
     ctx.label("n=%d" % n, "rank=%d" % len(shape), "order=" + order, "reverse=%s" % rev,
               "with_inverse=%s" % winv, "batch" if shape else "", "n>=3" if n >= 3 else "")
     kw = dict(reverse=rev, with_inverse=winv)
-    if order != "default":
+    if order == "none":       # no reordering: the reading find_isometry relies on
+        kw["order_eigenvalues"] = None
+    elif order != "default":
         kw["order_eigenvalues"] = order
     res = utils.diagonalize_form(Bs.copy(), **kw)
     if winv:
@@ -493,9 +496,12 @@ def body_diagform(case, ctx):
         ctx.small("W^T B W off-diagonal", D - np.diag(np.diag(D)), tol)
         ctx.close("W^T B W diagonal +-1", np.abs(np.diag(D)), np.ones(n), rtol=0, atol=tol)
         sg = [float(s) for s in np.sign(np.diag(D))]
-        ctx.check(sg in _expected_orders(p, q, order, rev),
-                  "diagonal signs in the documented order", got=sg, p=p, q=q, order=order,
-                  reverse=rev)
+        if order == "none":
+            ctx.check(sg.count(1.0) == p and sg.count(-1.0) == q, "signature of B", got=sg)
+        else:
+            ctx.check(sg in _expected_orders(p, q, order, rev),
+                      "diagonal signs in the documented order", got=sg, p=p, q=q,
+                      order=order, reverse=rev)
         if Wi is not None:
             ctx.close("W Winv = I", w @ np.asarray(Wi)[idx], np.eye(n), rtol=0, atol=tol)
             ctx.close("Winv W = I", np.asarray(Wi)[idx] @ w, np.eye(n), rtol=0, atol=tol)
